@@ -1,3 +1,3 @@
-CONSTANTS Prog <- CcXds ResetLocking = "lockonly" EventUnlock = TRUE HandlerFetch = FALSE
+CONSTANTS Prog <- CcXds ResetLocking = "lockonly" EventUnlock = TRUE HandlerFetch = FALSE Arm = 2 GapLocked = TRUE ResizeSameUnlocks = TRUE
 SPECIFICATION Spec
 INVARIANTS LocksetOK NoRace CallbackUnlocked NoSelfLock SnapshotAtomic ConsistentSet HolderOK
